@@ -176,6 +176,8 @@ impl<CS: CipherSuite> State<CS> {
 
     /// Load the current `read_off` from `shm`.
     fn read_off(&self, shm: &SharedMem<CS>) -> Result<Offset, Corrupted> {
+        #[cfg(aranya_core_verif)]
+        super::verif_sites::at(super::verif_sites::SITE_SHM_READ_OFF_LOAD);
         let off = shm.read_off.load(Ordering::SeqCst);
         if unlikely!(!self.valid_offset(off)) {
             Err(corrupted("invalid read offset"))
@@ -186,6 +188,8 @@ impl<CS: CipherSuite> State<CS> {
 
     /// Load the current `write_off` from `shm`.
     pub(super) fn write_off(&self, shm: &SharedMem<CS>) -> Result<Offset, Corrupted> {
+        #[cfg(aranya_core_verif)]
+        super::verif_sites::at(super::verif_sites::SITE_SHM_WRITE_OFF_LOAD);
         let off = shm.write_off.load(Ordering::SeqCst);
         if unlikely!(!self.valid_offset(off)) {
             Err(corrupted("invalid write offset"))
@@ -200,6 +204,8 @@ impl<CS: CipherSuite> State<CS> {
         shm: &SharedMem<CS>,
         write_off: Offset,
     ) -> Result<Offset, Corrupted> {
+        #[cfg(aranya_core_verif)]
+        super::verif_sites::at(super::verif_sites::SITE_SHM_READ_OFF_SWAP);
         let off = shm.read_off.swap(write_off.into(), Ordering::SeqCst);
         if unlikely!(!self.valid_offset(off)) {
             Err(corrupted("invalid write offset"))
